@@ -2,7 +2,7 @@
 // operation has the semantics of its std counterpart.
 pub mod async_std {
     pub mod fs {
-        pub use crate::shims::std::fs::{File, read, copy, remove_file, create_dir_all, OpenOptions, DirBuilder, metadata};
+        pub use crate::shims::std::fs::{File, read, copy, remove_file, create_dir_all, OpenOptions, DirBuilder, metadata, remove_dir_all};
     }
     pub mod io {
         pub use crate::shims::std::io::BufReader;
